@@ -246,9 +246,66 @@ def run(c, facts, tier):
     c.floor("emission sites", len(sites), 80)
     c.floor("holes examined", nholes, 60)
     fx = emit.scan_scheme([("c", '(streq? "'), ("h", emit.H("payload", "x", enum="Test", variant="Name", idx=0, ty="String")), ("c", '" s)')])
+    # ---- structure: "changing the characters of a user string never changes the structure of the program around it"
+    seen_sp, hits_sp = structure_predicates_read_text(facts)
+    c.ob("C04.structure", "mode predicates", "the predicates that choose the shape of the program do not read the user's text", bool(seen_sp) and not hits_sp, "examined %s; text payloads used: %s" % (seen_sp, hits_sp or "none (they look at which nodes the tree has, never at a string's characters)"), witness="-printf 'ab<LF>' vs -printf 'abc'" if hits_sp else None)
     c.control("C04.taint", any(ins and emit.tainted(h) for h, ins, _, _ in fx["holes"]), "fixture (streq? \"{String payload}\" s) is reported as a raw tainted hole inside a literal")
     fx2 = emit.scan_scheme([("c", "(and (a) (b)")])
     c.control("C04.balanced", fx2["depth_end"] != 0, "fixture with a dropped ')' is reported as unbalanced")
+
+
+def structure_predicates_read_text(facts):
+    """The predicates that choose the *shape* of the program (which manager, whether the implicit print is added) —
+    Expression::complex_frames, Expression::action and every crate function they call — may look at which nodes a tree has, not at
+    the characters of the user's strings: a payload of a text type (String, &str, char, Option of those) bound in one of their
+    patterns must not be used.  -> (functions examined, [(function, variable, where it is used)])"""
+    roots = [k for k in ("Expression::complex_frames", "Expression::action") if k in facts.fns]
+    seen, todo = [], list(roots)
+    while todo:
+        k = todo.pop()
+        if k in seen or k not in facts.fns or facts.fns[k].test:
+            continue
+        seen.append(k)
+        fn = facts.fns[k]
+        for n in find_all(fn.body, lambda n: n.get("k") in ("call", "mcall")):
+            if n["k"] == "mcall":
+                for k2, f2 in facts.fns.items():
+                    if f2.name == n["m"] and f2.impl is not None and not f2.test and not (f2.impl.get("trait") and norm_ty(f2.impl["trait"]).split("::")[-1] in ("TargetScheme", "SchemeManager")):
+                        todo.append(k2)
+            elif n["f"].get("k") == "path":
+                nm = n["f"]["segs"][-1]
+                for k2, f2 in facts.fns.items():
+                    if f2.name == nm and not f2.test and (f2.impl is None or (len(n["f"]["segs"]) >= 2 and norm_ty(f2.impl["self_ty"]).split("<")[0] == n["f"]["segs"][-2])):
+                        todo.append(k2)
+    TEXT = re.compile(r"^(&?(mut)?\s*)?(String|str|char|Option<&?(String|str|char)>|&'\w+\s*str|Cow<.*str>)$")
+    hits = []
+    for k in seen:
+        fn = facts.fns[k]
+        for pat_holder in find_all(fn.body, lambda n: isinstance(n, dict) and n.get("k") in ("match", "if", "let", "letexpr", "macro")):
+            pairs = []
+            if pat_holder["k"] == "match":
+                pairs = [(arm["pat"], [arm["body"], arm.get("guard")]) for arm in pat_holder["arms"]]
+            elif pat_holder["k"] == "if" and isinstance(pat_holder.get("cond"), dict) and pat_holder["cond"].get("k") == "letexpr":
+                pairs = [(pat_holder["cond"]["pat"], [pat_holder["then"]])]
+            elif pat_holder["k"] == "macro" and pat_holder.get("name") == "matches" and "pat" in pat_holder:
+                pairs = [(pat_holder["pat"], [pat_holder.get("guard")])]
+            for pat, scopes in pairs:
+                for ts in find_all(pat, lambda n: isinstance(n, dict) and n.get("k") == "tstruct" and len(n.get("segs", [])) >= 2):
+                    en, vn = ts["segs"][-2], ts["segs"][-1]
+                    if en == "Self" and fn.impl is not None:
+                        en = norm_ty(fn.impl["self_ty"]).split("<")[0]
+                    if en not in facts.enums:
+                        continue
+                    ftys = facts.variant_fields(en, vn)
+                    for i_, el in enumerate(ts.get("elems", [])):
+                        q = el
+                        while isinstance(q, dict) and q.get("k") in ("ref", "typed"):
+                            q = q["pat"]
+                        if isinstance(q, dict) and q.get("k") == "ident" and i_ < len(ftys) and TEXT.match(norm_ty(ftys[i_] or "")):
+                            uses = [u for sc_ in scopes if sc_ is not None for u in find_all(sc_, lambda n: isinstance(n, dict) and n.get("k") == "path" and n.get("segs") == [q["name"]])]
+                            if uses:
+                                hits.append((k, "%s::%s.%d as `%s`" % (en, vn, i_, q["name"]), src(uses[0])))
+    return seen, hits
 
 
 def find_char_from_payload(h, depth=0):
